@@ -111,7 +111,7 @@ func main() {
 		}
 		r.Finish()
 	}
-	quick := []string{"log", "snapshot", "writes-during-recovery", "worker-restart", "slow-apply", "tables"}
+	quick := []string{"log", "snapshot", "writes-during-recovery", "worker-restart", "slow-apply", "tables", "lease-handover"}
 	all := append(append([]string{}, quick...), "engine-restart", "log", "snapshot", "slow-apply", "writes-during-recovery", "engine-restart")
 	list := quick
 	if r.Thorough() {
@@ -313,10 +313,15 @@ func runScenario(r *ev.Run, id caseID) {
 	}
 	// follower-side apply stall (slow-apply scenario)
 	var stall atomic.Int64 // milliseconds to stall the next apply calls
+	fNodes := 1
+	var stallNode atomic.Int64 // 0 = every node
+	if id.Scenario == "lease-handover" {
+		fNodes = 3
+	}
 	fo := cluster.FollowerOpts{
-		Opts: cluster.Opts{Nodes: 1, MaxInMemLogSize: inMem},
+		Opts: cluster.Opts{Nodes: fNodes, MaxInMemLogSize: inMem},
 		Hook: func(node uint64, table string, rev uint64) {
-			if ms := stall.Load(); ms > 0 {
+			if ms := stall.Load(); ms > 0 && (stallNode.Load() == 0 || stallNode.Load() == int64(node)) {
 				time.Sleep(time.Duration(ms) * time.Millisecond)
 			}
 		},
@@ -344,6 +349,18 @@ func runScenario(r *ev.Run, id caseID) {
 	}
 	defer f.Close()
 	fe := func() *storage.Engine { return f.Nodes[0].Engine }
+	if fNodes > 1 {
+		// the table managers of the other follower nodes start a replica only when they reconcile
+		// (every 30 s in production): trigger it through the export shim
+		var stopRec atomic.Bool
+		defer stopRec.Store(true)
+		go func() {
+			for !stopRec.Load() {
+				f.ReconcileAll()
+				time.Sleep(150 * time.Millisecond)
+			}
+		}()
+	}
 
 	// sampler
 	var samples []sample
@@ -444,6 +461,33 @@ func runScenario(r *ev.Run, id caseID) {
 			paused.Store(false)
 			r.Count("engine_restarts", 1)
 		}
+		wg.Wait()
+	case "lease-handover":
+		// three follower nodes compete for the table lease; the replication manager of one node after
+		// the other is stopped (its worker returns the lease, another node takes over) while the apply
+		// path of the node that is about to take over is stalled (a lagging replica at hand-over)
+		pace = 6
+		startWriters(1, 100000)
+		time.Sleep(600 * time.Millisecond)
+		for i := 0; i < 5; i++ {
+			victim := i % 3
+			next := (victim + 1) % 3
+			stallNode.Store(int64(next + 1))
+			stall.Store(int64(60 + g.Intn(120)))
+			f.StopManager(victim)
+			time.Sleep(time.Duration(500+g.Intn(300)) * time.Millisecond)
+			stall.Store(0)
+			if err := f.StartManager(victim); err != nil {
+				stop.Store(true)
+				wg.Wait()
+				finishSampler()
+				r.Inconclusive("manager restart: " + err.Error())
+				return
+			}
+			r.Count("lease_handovers_forced", 1)
+			time.Sleep(time.Duration(200+g.Intn(200)) * time.Millisecond)
+		}
+		stop.Store(true)
 		wg.Wait()
 	case "slow-apply":
 		// writes keep flowing (paced) while the follower's apply path is stalled several times for
